@@ -472,6 +472,11 @@ func (e *expression) Value(ctx *hcl.EvalContext) (cty.Value, hcl.Diagnostics) {
 				})
 				continue
 			}
+			if !name.IsKnown() && name.IsMarked() {
+				// The dynamic result below still depends on this key.
+				_, unknownKeyMarks := name.Unmark()
+				keyMarks = append(keyMarks, unknownKeyMarks)
+			}
 			if !name.IsKnown() {
 				// This is a bit of a weird case, since our usual rules require
 				// us to tolerate unknowns and just represent the result as
